@@ -284,9 +284,10 @@ def error_sites():
             states = {"S": state, "Z": {"Type": "Pass", "End": True}, "R": {"Type": "Pass", "Result": "recovered", "ResultPath": "$.r", "End": True}}
             # C03-F6 (open): a Map re-entered for a later batch fails with its own re-entry entry still on the Branch stack;
             # unhandled at the top level the execution just fails, every other variant is a witness of the finding
-            late = {"finding": "C03-F6"} if name == "maplatebatch-IF" else {}
+            # (the fan-out protocol model has no input for "the launch of a later batch failed": these runs are outside its tie)
+            late = {"finding": "C03-F6", "fan_tie": False, "fan_tie_why": "late-batch launch failure"} if name == "maplatebatch-IF" else {}
             out.append(S("errsite-%s%s" % (name, tag), {"StartAt": "S", "States": states}, data, {"f1": [("ok",)]}, {"f1": 10},
-                         extra=dict({"n_rand": 1}, **(late if tag else {}))))
+                         extra=dict({"n_rand": 1}, **(late if tag else {k: v for k, v in late.items() if k != "finding"}))))
             if name in inbranch and tag != "-retry":
                 m = {"StartAt": "P", "States": {"P": {"Type": "Parallel", "End": True, "Branches": [
                     {"StartAt": "S", "States": json.loads(json.dumps(states))},
@@ -694,7 +695,9 @@ def run_property(chk, prop, laws, quick_gen=300, thorough_gen=4000, scns=None, n
             if redis:
                 kind = kind[len("redis-"):]
             # C06: the run is also abstracted into the alphabet of the fan-out protocol model (fanproto.py)
-            tracer = fanproto.Tracer(s, ea) if (fan and not redis and scn.sm_type == "STANDARD") else None
+            tracer = fanproto.Tracer(s, ea) if (fan and not redis and scn.sm_type == "STANDARD" and scn.extra.get("fan_tie", True)) else None
+            if fan and not scn.extra.get("fan_tie", True):
+                chk.dist("fanproto.unsupported.%s" % scn.extra.get("fan_tie_why", "scenario"))
             mon(s, ea, None)
             g = None
             stall_at = None if kind != "stall" else chk.rng.choice(["terminal", "terminal", chk.rng.randrange(0, 14)])
